@@ -22,7 +22,12 @@
 (***************************************************************************)
 EXTENDS Integers, Sequences, FiniteSets, TLC
 
-CONSTANTS Terms, NDocs, W, KMax, BlockSizes, Mults, Mode, NoPruneWithHook
+CONSTANTS Terms, NDocs, W, KMax, BlockSizes, Mults, Mode, NoPruneWithHook, StoredBlock
+\* StoredBlock: granularity of the block-max metadata stored in the segment.  As built the stored
+\*   metadata is reused only when the requested block size equals it and is rebuilt at the requested
+\*   size otherwise (StoredBlock = 0 models that: metadata granularity = bsize).  StoredBlock = n > 0
+\*   models the seeded change "reuse the finer stored metadata whenever bsize >= n" while the cursor
+\*   arithmetic (BlockOf, SkipToBlock) keeps using bsize.
 \* Mode: "wand" (per-term bounds) | "bmw_cur" (bound of the block the cursor is in - as built)
 \*     | "bmw_safe" (maximum over the blocks that can still contribute before the pivot document)
 
@@ -44,7 +49,17 @@ SetMaxOr0(S) == IF S = {} THEN 0 ELSE CHOOSE x \in S : \A y \in S : y <= x
 TermUB(t) == SetMaxOr0({contrib[t][d] : d \in Docs})
 
 BlockOf(i) == (i - 1) \div bsize                       \* 0-based block of posting index i
-BlockMax(t, b) == SetMaxOr0({contrib[t][Postings(t)[i]] : i \in {j \in DOMAIN Postings(t) : BlockOf(j) = b}})
+MetaGran == IF StoredBlock > 0 /\ bsize >= StoredBlock THEN StoredBlock ELSE bsize
+MetaBlockOf(i) == (i - 1) \div MetaGran
+BlockMax(t, b) == SetMaxOr0({contrib[t][Postings(t)[i]] : i \in {j \in DOMAIN Postings(t) : MetaBlockOf(j) = b}})
+(* TermState::skip_to_block: partition_point over the last documents of the metadata blocks,    *)
+(* then block index * bsize                                                                      *)
+MetaBlocks(t) == {MetaBlockOf(j) : j \in DOMAIN Postings(t)}
+MetaLastDoc(t, b) == SetMaxOr0({Postings(t)[j] : j \in {x \in DOMAIN Postings(t) : MetaBlockOf(x) = b}})
+SkipToBlock(t, target) ==
+  LET bi == Cardinality({b \in MetaBlocks(t) : MetaLastDoc(t, b) < target})
+      start == bi * bsize + 1
+  IN IF start > cur[t] THEN (IF start > Len(Postings(t)) + 1 THEN Len(Postings(t)) + 1 ELSE start) ELSE cur[t]
 
 (* upper bound the pivot selection uses for term t *)
 Bound(t) ==
@@ -89,9 +104,10 @@ PivotThreshold == IF NoPruneWithHook /\ ~ScoreIsRaw THEN 0 ELSE Threshold
 Pivot(s) == LET hits == {i \in DOMAIN s : Acc(s, i) >= PivotThreshold} IN
             IF hits = {} THEN 0 ELSE CHOOSE i \in hits : \A j \in hits : i <= j
 
-AdvanceTo(t, target) ==      \* first posting index whose document is >= target
+AdvanceTo(t, target) ==      \* first posting index (from the block skip onwards) whose document is >= target
   LET P == Postings(t)
-      ok == {i \in DOMAIN P : i >= cur[t] /\ P[i] >= target}
+      from == IF Mode = "wand" THEN cur[t] ELSE SkipToBlock(t, target)
+      ok == {i \in DOMAIN P : i >= from /\ P[i] >= target}
   IN IF ok = {} THEN Len(P) + 1 ELSE CHOOSE i \in ok : \A j \in ok : i <= j
 
 Init ==
